@@ -23,7 +23,9 @@ RULE = ("one case = random map pipeline x persisting storage (file_array | dict 
         "partial fixed_indices run with the same inputs followed by cleanup=False), followed by a history "
         "of 1-6 loads (load_outputs of 1-3 names, RunInfo.load, load_xarray_dataset with/without intermediates), each "
         "in the process that ran the map or after a simulated process exit (all manager processes shut down, all "
-        "objects dropped, directory order re-permuted), possibly several successive fresh processes. "
+        "objects dropped, directory order re-permuted), possibly several successive fresh processes; a quarter of the cases "
+        "spell the run folder relatively or absolutely per call and move the working directory between loads; after the run "
+        "every stored file must carry the permissions the umask grants. "
         "distinct_nontrivial = distinct (workload, storage, load history) digests containing at least one load after "
         "a process exit")
 COMPONENTS = {
